@@ -30,6 +30,8 @@ fn regenerate(c: &RefCell<u64>) -> u64 {
 
     loop {
         let rnd = rng.next_u64();
+        #[cfg(kismet_verif)]
+        let rnd = crate::verif::scripted_u64().unwrap_or(rnd);
         if rnd > 0 {
             c.replace(rnd);
             return rnd;
